@@ -1,14 +1,19 @@
 """C04 — integrity indicators of parsed PDUs tell the truth about the received bits (DESIGN §5 C04)."""
 import itertools
 import json
+import os
+import sys
 
 from bitarray import bitarray
 from bitarray.util import ba2int, int2ba
 
+if __name__ == "__main__":  # the `python -O` child of probe_cases: needs harness/ on the path for `common`
+    sys.path.insert(0, os.path.dirname(os.path.dirname(os.path.abspath(__file__))))
+
 from common import bits_str, hex_str, impl_error
 
 PROP = "C04"
-MODULES = ["C04", "C04a"]
+MODULES = ["C04", "C04a", "C04b"]
 GEN = ["Codes", "Crc", "Integrity"]
 ANCHORS = [
     "okdmr/dmrlib/etsi/crc",
@@ -239,8 +244,20 @@ def derived_values(c: int, w: int):
     add("correct-1", c - 1)
     for name, m in ETSI_MASKS.items():
         add("correct-xor-mask:" + name, c ^ m)
+    for name, m in ETSI_MASKS.items():
+        add("complement-of-correct-xor-mask:" + name, c ^ full ^ m)  # the CRC without its final inversion
+    add("correct-rotated-left-1", (c << 1) | (c >> (w - 1)))
+    add("correct-rotated-right-1", (c >> 1) | ((c & 1) << (w - 1)))
+    add("correct-shifted-left-1", c << 1)
+    add("correct-shifted-right-1", c >> 1)
+    if w > 8:
+        add("correct-low-octet-only", c & 0xFF)
+        add("correct-high-bits-only", c & ~0xFF)
     if w == 16:
         add("correct-octets-swapped", ((c & 0xFF) << 8) | (c >> 8))
+        add("correct-nibbles-swapped", ((c & 0x0F0F) << 4) | ((c & 0xF0F0) >> 4))
+        add("correct-bits-reversed-within-octets", (rev_bits(c >> 8, 8) << 8) | rev_bits(c & 0xFF, 8))
+        add("correct-rotated-by-4", ((c << 4) | (c >> 12)))
     return [(label, v) for v, label in seen.items()]
 
 
@@ -422,21 +439,22 @@ class CrcPdu:
         self.ctx, self.L, self.kind, self.last = ctx, L, kind, last
 
     # -- parse a received word: returns (obj | ERR, indicator, fields)
-    def parse(self, bits: bitarray):
+    def parse(self, bits: bitarray, fields=True):
+        """(obj | ERR, indicator, canonical field values without check value and indicator (None if not wanted))"""
         L, kind = self.L, self.kind
         if kind == "dh":
-            o = call(L.DataHeader.from_bits, bitarray(bits))
-            return o, (None if is_err(o) else o.crc_ok), (None if is_err(o) else fields_of(o, ("crc", "crc_ok")))
-        if kind == "pi":
-            o = call(L.PIHeader.from_bits, bitarray(bits))
-            return o, (None if is_err(o) else o.crc_ok), (None if is_err(o) else fields_of(o, ("crc", "crc_ok")))
-        if kind == "slc":
-            o = call(L.ShortLinkControl.from_bits, bitarray(bits))
-            return o, (None if is_err(o) else o.crc_ok), (None if is_err(o) else fields_of(o, ("crc_8bit", "crc_ok")))
-        cls, types, n = L.rates[kind]
-        t = types.ConfirmedLastBlock if self.last else types.Confirmed
-        o = call(cls.from_bits_typed, bitarray(bits), t)
-        return o, (None if is_err(o) else o.crc9_ok), (None if is_err(o) else fields_of(o, ("crc9", "crc9_ok")))
+            o, ok, drop = call(L.DataHeader.from_bits, bitarray(bits)), "crc_ok", ("crc", "crc_ok")
+        elif kind == "pi":
+            o, ok, drop = call(L.PIHeader.from_bits, bitarray(bits)), "crc_ok", ("crc", "crc_ok")
+        elif kind == "slc":
+            o, ok, drop = call(L.ShortLinkControl.from_bits, bitarray(bits)), "crc_ok", ("crc_8bit", "crc_ok")
+        else:
+            cls, types, n = L.rates[kind]
+            t = types.ConfirmedLastBlock if self.last else types.Confirmed
+            o, ok, drop = call(cls.from_bits_typed, bitarray(bits), t), "crc9_ok", ("crc9", "crc9_ok")
+        if is_err(o):
+            return o, None, None
+        return o, getattr(o, ok), (fields_of(o, drop) if fields else None)
 
     def width(self):
         return {"dh": 96, "pi": 96, "slc": 36, "r12": 96, "r34": 144, "r1": 192}[self.kind]
@@ -529,7 +547,7 @@ class CrcPdu:
         """r = the received buffer (a corrupted PDU, possibly followed by context); the outcome must be a decode
         error or indicator false"""
         ctx = self.ctx
-        q, ind, f1 = self.parse(r)
+        q, ind, _ = self.parse(r, fields=False)
         if corr:
             c = self.corr(r, q)
             if c:
@@ -542,6 +560,7 @@ class CrcPdu:
             return "detected"
         if f0 is None:
             f0 = self.parse(sent_word)[2] or {}
+        f1 = self.parse(r)[2] or {}
         same = f1 == f0
         ctx.count(f"{tag}:ACCEPTED-{'same' if same else 'DIFFERENT'}-fields")
         diff = {k: [f0.get(k), f1.get(k)] for k in set(f0) | set(f1) if f0.get(k) != f1.get(k)}
@@ -701,6 +720,67 @@ class CrcPdu:
         ln = rng.randint(2, w)
         return one_burst(rng, rng.randrange(max(0, d - ln + 1), d), ln)
 
+    def data_derived_values(self, word):
+        """check-field values correlated with the PDU's own data: w-bit windows of the data bits (as they stand and
+        reversed), and the check value the library assigns to a transform of the data (octet pairs swapped, bits
+        reversed within octets, complemented free bits)"""
+        n, w, rng = self.width(), self.check_width(), self.ctx.rng
+        full = (1 << w) - 1
+        chk = set(self.chk_pos())
+        data = [i for i in range(n) if i not in chk]
+        out = []
+        starts = list(range(0, len(data) - w + 1, max(1, w // 2)))
+        for st in rng.sample(starts, min(len(starts), 8)):
+            v = 0
+            for i in data[st:st + w]:
+                v = (v << 1) | word[i]
+            out.append((f"data-window@{data[st]}", v))
+            out.append((f"data-window-reversed@{data[st]}", rev_bits(v, w)))
+        free = self.free_pos()
+        lo, hi = free[0], free[-1] + 1
+        if (hi - lo) % 16 == 0 and lo % 8 == 0:
+            seg = word[lo:hi]
+            sw = bitarray()
+            for k in range(0, len(seg), 16):
+                sw += seg[k + 8:k + 16] + seg[k:k + 8]
+            rv = bitarray()
+            for k in range(0, len(seg), 8):
+                rv += seg[k:k + 8][::-1]
+            for label, t in (("octet-pairs-swapped", sw), ("bits-reversed-within-octets", rv), ("complemented", ~seg), ("reversed", seg[::-1])):
+                y = bitarray(word)
+                y[lo:hi] = t
+                r = self.rebuild(y)
+                if r is not None:
+                    out.append(("check-value-of-data-" + label, self.get_chk(r)))
+        return [(label, v & full) for label, v in out]
+
+    def with_own_check_in_data(self, sv):
+        """a valid PDU whose data bits contain its own check value (fixed point of the affine map), or None"""
+        b0, c0, pos, cols = sv
+        w = self.check_width()
+        if len(pos) < 2 * w:
+            return None
+        st = self.ctx.rng.randrange(0, len(pos) - w + 1)
+        window = pos[st:st + w]  # the check value, most significant bit first, is to stand here
+        v0 = 0
+        for p_ in window:
+            v0 = (v0 << 1) | b0[p_]
+        cols2 = [c ^ ((1 << (w - 1 - window.index(p_))) if p_ in window else 0) for p_, c in zip(pos, cols)]
+        x = gf2_solve(cols2, c0 ^ v0)
+        if x is None:
+            return None
+        y = bitarray(b0)
+        for p_, xi in zip(pos, x):
+            if xi:
+                y.invert(p_)
+        r = self.rebuild(y)
+        if r is None:
+            return None
+        v = 0
+        for p_ in window:
+            v = (v << 1) | r[p_]
+        return r if v == self.get_chk(r) else None
+
     def bases(self, count):
         """library-made PDUs with free data bits (every data header format, activity updates, blocks)"""
         out = []
@@ -735,7 +815,7 @@ class CrcPdu:
                 continue  # reported by run()
             correct = self.get_chk(word)
             # (a)
-            for label, v in fixed + derived_values(correct, w):
+            for label, v in fixed + derived_values(correct, w) + self.data_derived_values(word):
                 if v == correct:
                     continue
                 r = self.set_chk(word, v)
@@ -743,6 +823,34 @@ class CrcPdu:
                 ctx.case((tag, "special-a", sent, v))
                 ctx.count(f"{tag}:special:received-check-field-only")
                 self.judge(tag, word, r, pat, pairs, extra={"class": "special-check-value/check-field-only", "special": label}, f0=f0)
+            # special DATA values under the same treatment: every freely choosable data bit 0 / 1 (all-zero and
+            # all-ones addresses / payload): serialised -> ok; every single bit and every special check value -> not ok
+            for fill in (0, 1):
+                y = bitarray(word)
+                for fp in self.free_pos():
+                    y[fp] = fill
+                sf = self.rebuild(y)
+                if sf is None:
+                    continue
+                pf, indf, ff0 = self.parse(sf)
+                c = self.corr(sf, pf)
+                if c:
+                    pairs.append(c)
+                ctx.case((tag, "special-data", barg(sf)))
+                ctx.count(f"{tag}:special:data-all-{'ones' if fill else 'zeros'}")
+                if is_err(pf) or indf is not True:
+                    ctx.fail("selfcheck", {"pdu": kind, "last": self.last, "sent": barg(sf), "special": f"data bits all {fill}"},
+                             f"a library-serialised {tag} PDU whose free data bits are all {fill} does not parse back with its indicator true", expected=True, actual=str(pf if is_err(pf) else indf))
+                    continue
+                cf = self.get_chk(sf)
+                for i in range(n):
+                    ctx.case((tag, "special-data", barg(sf), i))
+                    self.judge(tag, sf, apply_pattern(sf, (i,)), (i,), pairs, corr=(i % 4 == 0), extra={"class": "special-data-value"}, f0=ff0)
+                for label, v in fixed:
+                    if v != cf:
+                        r = self.set_chk(sf, v)
+                        ctx.case((tag, "special-data-a", barg(sf), v))
+                        self.judge(tag, sf, r, tuple(i for i in range(n) if r[i] != sf[i]), pairs, extra={"class": "special-data-value/check-field-only", "special": label}, f0=ff0)
             sv = self.solver(word)
             if sv is None or len(sv[2]) < w:
                 ctx.count(f"{tag}:special:no-solver")
@@ -752,6 +860,25 @@ class CrcPdu:
             if not ctx.search_only and ctx.driver_ok and pairs:
                 ctx.correspond(f"{tag}.special-values", pairs)
             return
+        # correlation: the PDU's own check value stands inside its data bits
+        for sv in solvers[:2]:
+            s = self.with_own_check_in_data(sv)
+            if s is None:
+                ctx.count(f"{tag}:special:unsolved")
+                continue
+            ctx.count(f"{tag}:special:valid-pdus-with-own-check-value-in-data")
+            p, ind, f0 = self.parse(s)
+            c = self.corr(s, p)
+            if c:
+                pairs.append(c)
+            ctx.case((tag, "special-own", barg(s)))
+            if is_err(p) or ind is not True:
+                ctx.fail("selfcheck", {"pdu": kind, "last": self.last, "sent": barg(s), "special": "own check value inside the data"},
+                         f"a library-serialised {tag} PDU whose data bits contain its own check value does not parse back with its indicator true", expected=True, actual=str(p if is_err(p) else ind))
+                continue
+            for i in range(n):
+                ctx.case((tag, "special-own", barg(s), i))
+                self.judge(tag, s, apply_pattern(s, (i,)), (i,), pairs, corr=(i % 4 == 0), extra={"class": "special-check-value/own-check-in-data"}, f0=f0)
         for j, (label, v) in enumerate(fixed):
             sv = solvers[j % len(solvers)]
             s = self.with_check(sv, v)
@@ -1101,7 +1228,14 @@ def hrnp_special_cases(ctx, L, valid):
         correct = int.from_bytes(b[10:12], "big")
         vals = fixed + derived_values(correct, 16)
         if not ctx.thorough():
-            vals = vals[:8] + rng.sample(vals[8:], 16)
+            vals = vals[:8] + rng.sample(vals[8:], 20)
+        # correlation: the received checksum equals another 16-bit word of the same packet (packet number, length,
+        # payload words, the inner HDAP checksum octet) or the checksum of the header / the payload alone
+        body = b[0:10] + b[12:]
+        offs = range(0, len(body) - 1) if ctx.thorough() else list(range(0, 10, 2)) + list(range(10, len(body) - 1, 3))
+        vals += [(f"packet-word@{i}", int.from_bytes(body[i:i + 2], "big")) for i in offs]
+        vals += [("checksum-of-header-only", ones_sum(b[0:10])), ("checksum-of-payload-only", ones_sum(b[12:])), ("checksum-incl-own-field", ones_sum(b)),
+                 ("sum-not-complemented", ones_words(body)), ("checksum-of-whole-words-only", ones_sum(body[:len(body) & ~1]))]
         for label, v in vals:
             if v == correct:
                 continue
@@ -1221,7 +1355,20 @@ def run(ctx):
         "blocks of rate 1/2, 3/4, 1): library-serialised PDUs with random / extreme fields, each with all single-bit errors, (CCITT) all "
         "2-bit and sampled or all 3-bit errors and bursts <= 16, (short LC) all 2-bit errors and every burst <= 8, (CRC-9) sampled or every "
         "burst <= 9 (bursts in code order); outcome must be a decode error or indicator false (an accepted corrupted PDU is reported, with or without different field values). HRNP: captured and library-built "
-        "packets x every single-bit error. A case is non-trivial unless it is the all-zero word; distinct = distinct (PDU, sent word, pattern)."
+        "packets x every single-bit error. Class 'special check-field value' (every check field: slot / EMB parity, data header, PI header, short LC, "
+        "CRC-9 of confirmed (last) blocks, CRC-32 field of last blocks, HRNP checksum): (a) received check field replaced by 0, all-ones, the bare mask of "
+        "the kind, every other ETSI mask (low / top bits, complemented, bit-reversed), every single bit, alternating bits, one octet, and values derived "
+        "from the correct one (complement, bit-reversed, octets swapped, +-1, xor every mask) with the data as sent; (b) valid PDUs whose CORRECT check "
+        "value is each special value (affine structure of the check measured on the library's serialiser and solved over GF(2) in the harness; HRNP: "
+        "packet number solved arithmetically), corrupted in their data bits by all single bits and sampled bursts / 2-3 bit errors; (c) errors of the class "
+        "touching data and check bits with the sent PDU solved such that the received check field is the special value; special -> special. Class "
+        "'embedded in a larger buffer': every parser is fed each valid PDU and corrupted copies (all single bits, sampled class patterns, special check "
+        "values) followed by 1..3 bits of every value, octets, its own check field, the bare mask and the next PDU (data header also through from_bytes; "
+        "HRNP: valid packets of both length parities + 19 trailing contexts and a truncated buffer, every single-bit corruption + the two octets that "
+        "would complete the checksum if the sum ran past the announced length, + next packet, 0xFF, random); slot / EMB / blocks take exactly n bits "
+        "(rejecting is fine, accepting a corrupted word is not); PI header of 0..13 octets (its parser takes the length from the buffer). "
+        "A boosted run widens the number of PDUs by 2 (drift) / 3 (broken proof or correspondence), per-PDU samples stay. "
+        "A case is non-trivial unless it is the all-zero word; distinct = distinct (PDU, sent word, pattern)."
     )
     ctx.trusted_base += [
         "Lean 4.33 kernel",
@@ -1233,7 +1380,9 @@ def run(ctx):
     ctx.assumptions += [
         "the CRC detection theorems assume a received check field that is not all-zero (the constructors treat 0 as 'please generate': known finding zero-check-field; for a confirmed last block also a non-zero CRC-32 field, sent and received); the oracle does not",
         "bursts are bursts of the order in which the CRC covers the bits: for the short LC the 8 CRC bits are sent least significant bit first, for a confirmed block the order is data, (CRC-32,) serial number, CRC-9 (sent LSB first); a burst of the PDU bit order that straddles these field boundaries is not a burst of the code and carries no guarantee (ETSI layout, not a library matter)",
-        "HRNP: single-bit errors that clear a bit of the packet-length field are not covered by the theorem (the packet is then checked as a shorter one); the oracle includes them",
+        "HRNP: single-bit errors that clear a bit of the packet-length field are not covered by the theorem (the packet is then checked as a shorter one); the oracle includes them for exact-length buffers; with trailing context an inverted length bit makes the parser read into the context (another octet range is summed, nothing is guaranteed): those cases are compared model vs code only",
+        "a little-endian bitarray is not a received word of this library (ba2int of it reads other values): only big-endian bitarrays, as as_bits() produces them, are fed",
+        "PIHeader.from_bits takes the last 16 bits of any buffer as the CRC: a longer buffer is a longer PI header, there is no trailing context for it (other lengths are exercised as PDUs of their own)",
     ]
     L = lib()
     corpus_cases(ctx, L)
@@ -1258,11 +1407,239 @@ def run(ctx):
     CrcPdu(ctx, L, "dh").context_run(nb(ctx, 5, 15), 30 if q else 300)
     CrcPdu(ctx, L, "slc").context_run(nb(ctx, 4, 12), 30 if q else 300)
     pi_length_cases(ctx, L)
+    probe_cases(ctx, L)
     for kind in ("r12", "r34", "r1"):
         CrcPdu(ctx, L, kind, last=False).context_run(nb(ctx, 1, 3), 20 if q else 100)
         CrcPdu(ctx, L, kind, last=True).context_run(nb(ctx, 1, 3), 20 if q else 100)
     hrnp_cases(ctx, L)
     ctx.exhaustive = ctx.thorough()
+
+
+def sample_words(ctx, L, per_kind):
+    """[(kind, last, valid word, [corrupted words in the guaranteed class, received check field non-zero])] for the
+    small probes below"""
+    rng = ctx.rng
+    out = []
+    for kind, last in (("dh", False), ("pi", False), ("slc", False), ("r12", False), ("r12", True), ("r34", False), ("r34", True), ("r1", False), ("r1", True)):
+        pdu = CrcPdu(ctx, L, kind, last)
+        order, n = pdu.code_order(), pdu.width()
+        for word in pdu.bases(per_kind):
+            p, ind, _ = pdu.parse(word, fields=False)
+            if is_err(p) or ind is not True:
+                continue
+            bad = []
+            cps = [(i,) for i in rng.sample(range(n), 10)] + [pdu.class_pattern(rng, rng.choice(["data", "mixed"])) for _ in range(6)]
+            for cp in cps:
+                r = apply_pattern(word, tuple(order[i] for i in cp))
+                if pdu.get_chk(r) != 0 and (not last or r[n - 32:].any()):
+                    bad.append((tuple(sorted(order[i] for i in cp)), r))
+            for label, v in rng.sample(special_values(pdu.check_width(), KIND_MASK.get(kind)), 5):
+                if v not in (0, pdu.get_chk(word)):
+                    r = pdu.set_chk(word, v)
+                    bad.append((tuple(i for i in range(n) if r[i] != word[i]), r))
+            out.append((pdu, word, bad))
+    return out
+
+
+def entry(pdu):
+    L, kind = pdu.L, pdu.kind
+    if kind == "dh":
+        return L.DataHeader.from_bits, "crc_ok"
+    if kind == "pi":
+        return L.PIHeader.from_bits, "crc_ok"
+    if kind == "slc":
+        return L.ShortLinkControl.from_bits, "crc_ok"
+    cls, types, n = L.rates[kind]
+    t = types.ConfirmedLastBlock if pdu.last else types.Confirmed
+    return (lambda bits: cls.from_bits_typed(bits, t)), "crc9_ok"
+
+
+def probe_cases(ctx, L):
+    """cheap probes around the verdict: (1) argument provenance — an immutable frozenbitarray; (2) error-path state —
+    a call that RAISES (wrong length / type / reserved value) right before a valid and a corrupted PDU must not
+    change their verdicts; (3) ambient state — root logger at DEBUG, sys.stdout replaced by a writer that raises,
+    `random` reseeded; (4) one child `python -O` process (asserts stripped) whose FIRST call on every class is a
+    failing one"""
+    import logging
+    import random as _random
+    import sys as _sys
+
+    from bitarray import frozenbitarray
+
+    rng = ctx.rng
+    words = sample_words(ctx, L, nb(ctx, 2, 6))
+    hr = [bytes.fromhex(h) for h in HRNP_CORPUS[4:9]]
+
+    def verdicts(pdu, word, bad, how, wrap=lambda b: bitarray(b), before=lambda: None):
+        fn, ok = entry(pdu)
+        tag = pdu.kind + ("-last" if pdu.last else "")
+        before()
+        o = call(fn, wrap(word))
+        ctx.case(("probe", how, tag, barg(word)))
+        ctx.count(f"probe:{how}")
+        if is_err(o) or getattr(o, ok) is not True:
+            ctx.fail("selfcheck", {"pdu": pdu.kind, "last": pdu.last, "sent": barg(word), "probe": how},
+                     f"a library-serialised {tag} PDU does not parse back with its indicator true ({how})", expected=True, actual=str(o if is_err(o) else getattr(o, ok)))
+        for pat, r in bad:
+            before()
+            q = call(fn, wrap(r))
+            ctx.case(("probe", how, tag, barg(r)))
+            if not is_err(q) and getattr(q, ok) is not False:
+                ctx.fail("corruption-accepted", {"pdu": pdu.kind, "last": pdu.last, "sent": barg(word), "positions": list(pat), "received": barg(r), "probe": how},
+                         f"{tag}: a corrupted PDU ({len(pat)} inverted bits) is accepted (indicator true) ({how})", expected="indicator false or a decode error", actual="indicator true")
+
+    def hrnp_verdicts(how, before=lambda: None):
+        for b in hr:
+            before()
+            o = call(L.HRNP.from_bytes, b)
+            ctx.case(("probe", how, "hrnp", b))
+            if is_err(o) or o.checksum_correct is not True:
+                ctx.fail("selfcheck", {"pdu": "hrnp", "sent": b.hex(), "probe": how}, f"a valid HRNP packet does not parse with checksum_correct ({how})", expected=True, actual=str(o if is_err(o) else o.checksum_correct))
+            for bit in rng.sample([i for i in range(len(b) * 8) if not 64 <= i < 80], 12):
+                c = flip_bit(b, bit)
+                before()
+                q = call(L.HRNP.from_bytes, c)
+                ctx.case(("probe", how, "hrnp", c))
+                if not is_err(q) and q.checksum_correct is not False:
+                    ctx.fail("corruption-accepted", {"pdu": "hrnp", "sent": b.hex(), "bit": bit, "received": c.hex(), "probe": how},
+                             f"HRNP: a packet with one inverted bit is accepted ({how})", expected="checksum_correct false or a decode error", actual="checksum_correct true")
+
+    # (1) provenance
+    for pdu, word, bad in words:
+        verdicts(pdu, word, bad, "frozenbitarray argument", wrap=lambda b: frozenbitarray(b))
+    # (2) error-path state: a raising call before every parse
+    raisers = [None, b"\x00", "0101", 7, bitarray(), bitarray("1"), [], (1, 0)]
+    for pdu, word, bad in words:
+        fn, _ = entry(pdu)
+        n = pdu.width()
+        own = raisers + [bitarray(word[:n - 1]), bitarray(word[:8]), bitarray("1" * n) if pdu.kind in ("dh", "slc") else bitarray(word + bitarray("1"))]
+        state = {"i": 0}
+
+        def before():
+            x = own[state["i"] % len(own)]
+            state["i"] += 1
+            r = call(fn, x)
+            ctx.count("probe:error-path:" + ("raised" if is_err(r) else "parsed"))
+
+        verdicts(pdu, word, bad, "after a raising call", before=before)
+    hstate = {"i": 0}
+    hraisers = [None, b"", b"\x7e", bytes(11), b"\x7e\x04\x00\x55" + bytes(8), "7e04", 5, hr[0][:-1], hr[0][:12]]
+
+    def hbefore():
+        x = hraisers[hstate["i"] % len(hraisers)]
+        hstate["i"] += 1
+        call(L.HRNP.from_bytes, x)
+
+    hrnp_verdicts("after a raising call", before=hbefore)
+    for kind in ("slot", "emb"):
+        cls = L.SlotType if kind == "slot" else L.EmbeddedSignalling
+        okattr = "fec_parity_ok" if kind == "slot" else "emb_parity_ok"
+        good = barg(call(lambda: (L.SlotType(5, 3) if kind == "slot" else L.EmbeddedSignalling(5, 1, 2)).as_bits()))
+        for x in raisers + [bitarray(good[:-1]), bitarray(good + "1")]:
+            call(cls.from_bits, x)
+            for ws, member in ((good, True), (good[:-1] + ("0" if good[-1] == "1" else "1"), False)):
+                o = call(cls.from_bits, bitarray(ws))
+                ctx.case(("probe", "after a raising call", kind, ws, str(type(x))))
+                if is_err(o) or bool(getattr(o, okattr)) != member:
+                    ctx.fail("indicator-not-membership", {"pdu": kind, "received": ws, "probe": "after a raising call"},
+                             f"{cls.__name__}.{okattr} after a raising call is {o if is_err(o) else getattr(o, okattr)}, membership is {member}", expected=member, actual=str(o if is_err(o) else getattr(o, okattr)))
+    # (3) ambient state
+    class _Raiser:
+        def write(self, *_a):
+            raise OSError("stdout is closed")
+
+        def flush(self):
+            raise OSError("stdout is closed")
+
+    root = logging.getLogger()
+    old_level, old_out, old_state = root.level, _sys.stdout, _random.getstate()
+    try:
+        root.setLevel(logging.DEBUG)
+        _sys.stdout = _Raiser()
+        for pdu, word, bad in words:
+            verdicts(pdu, word, bad, "root logger DEBUG, failing stdout, random reseeded", before=lambda: _random.seed(0))
+        hrnp_verdicts("root logger DEBUG, failing stdout, random reseeded", before=lambda: _random.seed(0))
+    finally:
+        _sys.stdout = old_out
+        root.setLevel(old_level)
+        _random.setstate(old_state)
+    # (4) child process: python -O, first call on every class a failing one
+    import os
+    import subprocess
+
+    job = {"pdus": [[pdu.kind, pdu.last, barg(word), [[list(pat), barg(r)] for pat, r in bad]] for pdu, word, bad in words],
+           "hrnp": [[b.hex(), [flip_bit(b, bit).hex() for bit in rng.sample([i for i in range(len(b) * 8) if not 64 <= i < 80], 12)], [(b + t).hex() for t in (b"\x7e", b"\xff\x01", b"\x00\x00\x01")]] for b in hr]}
+    try:
+        r = subprocess.run([_sys.executable, "-O", os.path.abspath(__file__), "--child"], input=json.dumps(job), capture_output=True, text=True, timeout=300)
+        res = json.loads(r.stdout.strip().splitlines()[-1]) if r.returncode == 0 and r.stdout.strip() else None
+    except Exception as e:  # noqa
+        res, r = None, None
+        ctx.notes.append(f"python -O child process could not be run: {e}")
+    if res is None:
+        if r is not None:
+            ctx.notes.append("python -O child process failed: " + (r.stderr or "")[-300:])
+        ctx.count("probe:child-failed")
+    else:
+        ctx.count("probe:python -O child, first call failing", res["cases"])
+        for _ in range(res["cases"]):
+            ctx.evaluations += 1
+        for f in res["failures"]:
+            ctx.fail(f["kind"], f["input"], f["what"], expected=f.get("expected"), actual=f.get("actual"))
+
+
+def child_main():
+    """runs under `python -O`: the first call on every class is a failing one, then the verdicts on the given words"""
+    import sys as _sys
+
+    sys_path_self = os.path.dirname(os.path.dirname(os.path.abspath(__file__)))
+    job = json.loads(_sys.stdin.read())
+    L = lib()
+    how = "python -O child process, first call on the class a failing one"
+    fails, cases = [], 0
+    first = set()
+    for kind, last, sent, bad in job["pdus"]:
+        pdu = CrcPdu(_Null(), L, kind, last)
+        fn, ok = entry(pdu)
+        if kind not in first:
+            first.add(kind)
+            call(fn, None)
+            call(fn, bitarray())
+        o = call(fn, bitarray(sent))
+        cases += 1
+        if is_err(o) or getattr(o, ok) is not True:
+            fails.append({"kind": "selfcheck", "input": {"pdu": kind, "last": last, "sent": sent, "probe": how},
+                          "what": f"a library-serialised {kind} PDU does not parse back with its indicator true ({how})", "expected": True, "actual": str(o if is_err(o) else getattr(o, ok))})
+        for pat, rb in bad:
+            q = call(fn, bitarray(rb))
+            cases += 1
+            if not is_err(q) and getattr(q, ok) is not False:
+                fails.append({"kind": "corruption-accepted", "input": {"pdu": kind, "last": last, "sent": sent, "positions": pat, "received": rb, "probe": how},
+                              "what": f"{kind}: a corrupted PDU is accepted (indicator true) ({how})", "expected": "indicator false or a decode error", "actual": "indicator true"})
+    call(L.HRNP.from_bytes, None)
+    call(L.HRNP.from_bytes, b"")
+    for hx, bads, ctxs in job["hrnp"]:
+        for buf, want in [(hx, True)] + [(c, True) for c in ctxs] + [(c, False) for c in bads]:
+            q = call(L.HRNP.from_bytes, bytes.fromhex(buf))
+            cases += 1
+            if want and (is_err(q) or q.checksum_correct is not True):
+                fails.append({"kind": "selfcheck" if buf == hx else "selfcheck-in-context", "input": {"pdu": "hrnp", "sent": buf, "packet": hx, "probe": how},
+                              "what": f"a valid HRNP packet (followed by {(len(buf) - len(hx)) // 2} more octets) does not parse with checksum_correct ({how})", "expected": True, "actual": str(q if is_err(q) else q.checksum_correct)})
+            if not want and not is_err(q) and q.checksum_correct is not False:
+                fails.append({"kind": "corruption-accepted", "input": {"pdu": "hrnp", "sent": hx, "received": buf, "probe": how},
+                              "what": f"HRNP: a packet with one inverted bit is accepted ({how})", "expected": "checksum_correct false or a decode error", "actual": "checksum_correct true"})
+    for kind in ("slot", "emb"):
+        cls = L.SlotType if kind == "slot" else L.EmbeddedSignalling
+        okattr = "fec_parity_ok" if kind == "slot" else "emb_parity_ok"
+        call(cls.from_bits, None)
+        good = barg(call(lambda: (L.SlotType(5, 3) if kind == "slot" else L.EmbeddedSignalling(5, 1, 2)).as_bits()))
+        for ws, member in [(good, True)] + [(good[:i] + ("0" if good[i] == "1" else "1") + good[i + 1:], False) for i in range(len(good))]:
+            o = call(cls.from_bits, bitarray(ws))
+            cases += 1
+            if is_err(o) or bool(getattr(o, okattr)) != member:
+                fails.append({"kind": "indicator-not-membership", "input": {"pdu": kind, "received": ws, "probe": how},
+                              "what": f"{cls.__name__}.{okattr} is {o if is_err(o) else getattr(o, okattr)}, membership is {member} ({how})", "expected": member, "actual": str(o if is_err(o) else getattr(o, okattr))})
+    print(json.dumps({"cases": cases, "failures": fails, "optimised": not __debug__}))
+    return 0
 
 
 def pi_length_cases(ctx, L):
@@ -1314,8 +1691,8 @@ def replay(obj):
     if kind in ("slot", "emb") and "received" in inp:
         fec = Fec(_Null(), L, kind)
         o = call(fec.cls.from_bits, bitarray(inp["received"]))
-        member = inp["received"] in fec.codewords
-        print(f"implementation {fec.cls.__name__}.from_bits({inp['received']}) -> {fec.out(o)}; code word membership of the received word: {member}")
+        member = inp.get("word", inp["received"]) in fec.codewords
+        print(f"implementation {fec.cls.__name__}.from_bits({inp['received']}) -> {fec.out(o)}; code word membership of the received word {inp.get('word', '')}: {member}")
         still = int(is_err(o) or bool(getattr(o, fec.okattr)) != member)
         lines = [f"{kind}.dec {inp['received']}"]
     elif kind in ("dh", "pi", "slc", "r12", "r34", "r1"):
@@ -1324,9 +1701,22 @@ def replay(obj):
             p, ind, f0 = pdu.parse(bitarray(inp["sent"]))
             print(f"sent     {inp['sent']}: indicator {ind if not is_err(p) else p}")
             still = int(is_err(p) or ind is not True)
+            if "buffer" in inp:
+                # the sent PDU followed by more bits / octets in the buffer
+                buf = bitarray(inp["buffer"])
+                if inp.get("entry") == "from_bytes":
+                    q = call(L.DataHeader.from_bytes, buf.tobytes())
+                    ind1 = None if is_err(q) else q.crc_ok
+                else:
+                    q, ind1, _ = pdu.parse(buf)
+                print(f"buffer   {inp['buffer']} (the PDU followed by {inp.get('trailing')}{', ' + inp['entry'] if inp.get('entry') else ''}): indicator {ind1 if not is_err(q) else q}")
+                still = int(is_err(q) or ind1 is not True)
+                c = pdu.corr(buf, q)
+                if c:
+                    lines = [c[0]]
             if "received" in inp:
                 q, ind1, f1 = pdu.parse(bitarray(inp["received"]))
-                print(f"received {inp['received']} (bits {inp.get('positions')} inverted): indicator {ind1 if not is_err(q) else q}")
+                print(f"received {inp['received']} (bits {inp.get('positions')} inverted{'; check field = ' + str(inp['special']) if inp.get('special') else ''}{'; followed by ' + str(inp['trailing']) if inp.get('trailing') else ''}): indicator {ind1 if not is_err(q) else q}")
                 if not is_err(q) and not is_err(p):
                     print("fields differ:", {k: [f0.get(k), f1.get(k)] for k in set(f0) | set(f1) if f0.get(k) != f1.get(k)})
                     still = int(ind1 is True)
@@ -1365,3 +1755,7 @@ class _Null:
 
     def count(self, *a, **k):
         pass
+
+
+if __name__ == "__main__" and "--child" in sys.argv:
+    sys.exit(child_main())
